@@ -9,7 +9,8 @@ wt=/tmp/mt-$id
 out=/tmp/mt-$id-out
 unset GOSUMDB GOTOOLCHAIN GOWORK
 export GOFLAGS=-mod=mod GOPROXY=off
-git -C /repo worktree add -q --detach "$wt" HEAD || exit 2
+# MUTEST_BASE: the commit of /repo the patch was written against (default HEAD)
+git -C /repo worktree add -q --detach "$wt" "${MUTEST_BASE:-HEAD}" || exit 2
 trap 'git -C /repo worktree remove --force "$wt" >/dev/null 2>&1; rm -rf "$out"' EXIT
 git -C "$wt" apply "$patch" || { echo "patch does not apply"; exit 2; }
 ( cd "$wt" && go build ./... ) || { echo "does not build"; exit 2; }
